@@ -1025,9 +1025,19 @@ func exhaustive(run *hx.Run, r *hx.RNG, maxSize int) {
 // byNameProbe replays a fixed witness on every run: Store.IntentionMutation identifies the source of an
 // upsert / delete by its ServiceName only (UpsertSourceByName / DeleteSourceByName ignore the peer), so a
 // by-name mutation meant for the local `web -> api` hits the peer intention `p1/web -> api` when that one is
-// stored first. The lines are compared with the model (which mirrors the code); the outcome is tagged, not
-// raised, because the property statement is about decisions for a given stored set (see the final report).
+// stored first. The lines are compared with the model (which mirrors the code). Monitor (model independent):
+// a by-name delete of the local intention removes exactly that one, a by-name upsert of a local intention
+// leaves a peer-sourced one in place — signature mutation:by-name-ignores-peer (listed in known_findings.txt).
 func byNameProbe(run *hx.Run) {
+	const sig = "mutation:by-name-ignores-peer"
+	has := func(xs []obs, peer string) bool {
+		for _, o := range xs {
+			if o.peer == peer && o.src == "web" && o.dst == "api" {
+				return true
+			}
+		}
+		return false
+	}
 	for k, order := range [][]ixn{
 		{{peer: "p1", src: "web", dst: "api", act: "d"}, {src: "web", dst: "api", act: "a"}},
 		{{src: "web", dst: "api", act: "a"}, {peer: "p1", src: "web", dst: "api", act: "d"}},
@@ -1038,17 +1048,18 @@ func byNameProbe(run *hx.Run) {
 		left := t.list(run)
 		t.authz(run, "p1", "web", "api", true, false)
 		t.authz(run, "", "web", "api", false, false)
-		if len(left) == 1 && left[0].peer == "" {
-			run.Tag(fmt.Sprintf("finding:delete-by-name-removed-peer-source-instead-of-local:order%d", k))
-		} else if len(left) == 1 {
+		if has(left, "") || !has(left, "p1") {
+			run.Violate(sig, fmt.Sprintf("entry api = [%s]: deleting the local web -> api by name left %s (the peer-sourced p1/web -> api must stay, the local one must go; the outcome follows the stored source order)",
+				encSrcs(order), stripIDs(left)), t.ops)
+		} else {
 			run.Tag(fmt.Sprintf("probe:delete-by-name-removed-local-source:order%d", k))
 		}
-		t2 := newSUT(run, true)
-		t2.ent(run, "api", []ixn{{peer: "p1", src: "web", dst: "api", act: "d"}})
-		t2.up(run, ixn{src: "web", dst: "api", act: "a"})
-		if left := t2.list(run); len(left) == 1 {
-			run.Tag("finding:upsert-by-name-replaced-peer-source")
-		}
+	}
+	t2 := newSUT(run, true)
+	t2.ent(run, "api", []ixn{{peer: "p1", src: "web", dst: "api", act: "d"}})
+	t2.up(run, ixn{src: "web", dst: "api", act: "a"})
+	if left := t2.list(run); !has(left, "p1") || !has(left, "") {
+		run.Violate(sig, fmt.Sprintf("entry api = [p1/web deny]: upserting the local web -> api by name left %s (the peer-sourced intention was replaced)", stripIDs(left)), t2.ops)
 	}
 	run.Case("by-name-probe", true)
 }
@@ -1073,6 +1084,15 @@ func unnamedLegacyProbe(run *hx.Run) {
 // caseProbe: names that differ only in letter case. memdb lower-cases the config-entry primary key and every
 // legacy index key, while sources inside entries, the sorter and connect.IntentionMatch compare exact bytes.
 func caseProbe(run *hx.Run) {
+	// the witness of known finding case:destination-name-differs-only-in-case: one entry "Web" with api -> Web
+	// deny; for the pair api -> web the authorize path finds the entry under the lower-cased key and denies,
+	// Intention.Check compares the destination bytes and falls back to the default
+	w := newSUT(run, true)
+	w.ent(run, "Web", []ixn{{src: "api", dst: "Web", act: "d"}})
+	if c, a := w.check(run, "api", "web", true, false), w.authz(run, "", "api", "web", true, false); c != a {
+		run.Violate("case:destination-name-differs-only-in-case",
+			fmt.Sprintf("entry \"Web\" = [api deny]: for api -> web Intention.Check says %s, the authorize path says %s", c.enc(), a.enc()), w.ops)
+	}
 	t := newSUT(run, true)
 	t.ent(run, "Web", []ixn{{src: "api", dst: "Web", act: "d"}, {src: "API", dst: "Web", act: "a"}})
 	q := func(t *sut) {
@@ -1104,7 +1124,8 @@ func caseProbe(run *hx.Run) {
 // caseHistory: random edits and queries over names that differ only in letter case. Model-vs-implementation
 // lines only: the monitors above restate the property for lower-case names (the property's notion of "the
 // same service"); where the lower-cased memdb keys make the two decision pipelines disagree the case is
-// tagged finding:case-… (see the final report), not raised.
+// tagged finding:case-…; the fixed witness in caseProbe raises the known finding
+// case:destination-name-differs-only-in-case once per run.
 func caseHistory(run *hx.Run, r *hx.RNG) {
 	names := []string{"web", "Web", "api", "API", "db"}
 	ends := append(append([]string(nil), names...), "*")
